@@ -152,6 +152,15 @@ def run(ctx: Ctx):
     # externals created, replaced and trimmed in the session that also writes the reference: the second session finds nothing to do in the storage either
     sp += [{"source": "from inline_snapshot import snapshot, outsource, external\n\n\ndef test_a():\n    assert outsource('a' * 40) == snapshot()\n\n\n"
                       "def test_b():\n    assert [outsource(b'b' * 40), 1] == snapshot([0])\n", "externals": 2}]
+    # the names the generated code needs (external, HasRepr) are imported only where the import is not executed / not at module level, or not at all:
+    # the first session has to add the import line, the second one passes and finds nothing to do
+    body = "\n\ndef test_a():\n    assert outsource('c' * 40) == snapshot()\n\n\nclass NoCode:\n    def __repr__(self):\n        return '<nocode>'\n\n    def __eq__(self, other):\n        return True if isinstance(other, NoCode) else NotImplemented\n\n\ndef test_b():\n    assert NoCode() == snapshot()\n"
+    for head in ("from inline_snapshot import snapshot, outsource\n",
+                 "from typing import TYPE_CHECKING\nfrom inline_snapshot import snapshot, outsource\n\nif TYPE_CHECKING:\n    from inline_snapshot import external, HasRepr\n",
+                 "from inline_snapshot import snapshot, outsource\n\ntry:\n    import a_module_that_does_not_exist_xyz\n    from inline_snapshot import external, HasRepr\nexcept ImportError:\n    pass\n",
+                 "from inline_snapshot import snapshot, outsource\n\n\ndef helper():\n    from inline_snapshot import external, HasRepr\n    return external, HasRepr\n",
+                 "from inline_snapshot import snapshot, outsource\n\nif False:\n    from inline_snapshot import external\nelse:\n    from inline_snapshot import HasRepr\n"):
+        sp.append({"source": head + body, "externals": 1})
     for p, o in zip(sp, tmap(run_sessions, sp)):
         ctx.count(("session", p["source"]), True)
         why = None
